@@ -18,7 +18,8 @@ RULE = ("all sets and frozensets with <= K elements over a 9-10 element alphabet
         "value with >= 2 elements whose text was compared across >= 2 seeds and >= 2 insertion orders; distinct = (value, order, method)")
 ASSUMPTIONS = ["for dicts only the construction method is varied: insertion order is observable through the value",
                "black absence is simulated by a project-local black.py that raises ImportError in the cold interpreter"]
-TASK_TIMEOUT = 1200
+TASK_TIMEOUT = 9000
+CHUNK = 3000  # sites per cold process (one hash seed per task; a larger file makes the formatter superlinear)
 
 ELEMS_Q = ['"a"', "1", "None", '(1, "a")', "(1, None)", 'frozenset({"a"})', 'frozenset({"b"})', 'frozenset({"a", "b"})', 'frozenset({"c", "a"})',
            # partially ordered without being frozensets themselves: tuples that wrap incomparable frozensets
@@ -124,32 +125,36 @@ def run_task(task):
     if task.get("only_key"):
         # replay of one disagreement: only the sites of that value (the processes of a full batch take minutes)
         sites = [s_ for s_ in sites if s_[0] == task["only_key"]]
-    src = _file(sites)
-    files = {"test_something.py": src, "pyproject.toml": ""}
-    if task["fmt"] == "noblack":
-        files["black.py"] = "raise ImportError('black is not installed (simulated)')\n"
-    if task["fmt"] == "cmd":
-        files["pyproject.toml"] = '[tool.inline-snapshot]\nformat-command="cat"\n'
-    d = plugin.mk_project(files)
-    try:
-        r = plugin.cold_session(d, ["--inline-snapshot=create,fix", "-p", "no:randomly"], hashseed=task["hs"], timeout=1000)
-        after = plugin.listing(d, text=True)["test_something.py"]
-    finally:
-        plugin.cleanup()
     out = {"n": len(sites), "nontrivial": [], "outcomes": {}, "violations": [], "samples": [], "texts": None}
-    if "INTERNALERROR" in r["out"] or r["rc"] not in (0, 1):
-        out["violations"].append({"case": task, "what": "internal-error", "detail": r["out"][-1500:]})
-        return out
-    try:
-        calls = snapshot_calls(after, toplevel_only=True)
-    except SyntaxError as e:
-        out["violations"].append({"case": task, "what": "unparsable", "detail": str(e)})
-        return out
-    calls = calls[1:]  # the first call belongs to the BadRepr prelude test
-    if len(calls) != len(sites):
-        out["violations"].append({"case": task, "what": "call-count-changed", "detail": "%d vs %d" % (len(calls), len(sites))})
-        return out
-    out["texts"] = [c["arg_text"].strip() for c in calls]
+    texts = []
+    for off in range(0, len(sites), CHUNK):
+        part = sites[off : off + CHUNK]
+        src = _file(part)
+        files = {"test_something.py": src, "pyproject.toml": ""}
+        if task["fmt"] == "noblack":
+            files["black.py"] = "raise ImportError('black is not installed (simulated)')\n"
+        if task["fmt"] == "cmd":
+            files["pyproject.toml"] = '[tool.inline-snapshot]\nformat-command="cat"\n'
+        d = plugin.mk_project(files)
+        try:
+            r = plugin.cold_session(d, ["--inline-snapshot=create,fix", "-p", "no:randomly"], hashseed=task["hs"], timeout=1500)
+            after = plugin.listing(d, text=True)["test_something.py"]
+        finally:
+            plugin.cleanup()
+        if "INTERNALERROR" in r["out"] or r["rc"] not in (0, 1):
+            out["violations"].append({"case": task, "what": "internal-error", "detail": r["out"][-1500:]})
+            return out
+        try:
+            calls = snapshot_calls(after, toplevel_only=True)
+        except SyntaxError as e:
+            out["violations"].append({"case": task, "what": "unparsable", "detail": str(e)})
+            return out
+        calls = calls[1:]  # the first call belongs to the BadRepr prelude test
+        if len(calls) != len(part):
+            out["violations"].append({"case": task, "what": "call-count-changed", "detail": "%d vs %d" % (len(calls), len(part))})
+            return out
+        texts += [c["arg_text"].strip() for c in calls]
+    out["texts"] = texts
     out["outcomes"]["ok:process:%s" % task["fmt"]] = 1
     return out
 
